@@ -109,3 +109,15 @@ MUTANTS += [
  ('C06', 'multiundo-ignores-tindex', FS, "        tpos = self._tindex.get(oid, 0)\n        ipos = self._index.get(oid, 0)\n        tipos = tpos or ipos", "        tpos = 0\n        ipos = self._index.get(oid, 0)\n        tipos = tpos or ipos"),
  ('C06', 'db-undomultiple-reversed', 'DB.py', "        for tid in self._tids:\n            self._storage.undo(tid, transaction)", "        for tid in self._tids[:1]:\n            self._storage.undo(tid, transaction)"),
 ]
+FSP = 'FileStorage/fspack.py'
+MUTANTS += [
+ ('C07', 'isreachable-ignores-reach-ex', FSP, "        return pos in self.reach_ex.get(oid, [])", "        return 0"),
+ ('C07', 'skip-reachable-from-future', FSP, "            self.findReachableAtPacktime([z64])\n            self.findReachableFromFuture()", "            self.findReachableAtPacktime([z64])"),
+ ('C07', 'packed-record-keeps-prev', FSP, "        h.prev = 0\n        h.back = 0\n        h.plen = len(data)", "        h.back = 0\n        h.plen = len(data)"),
+ ('C07', 'packtime-one-tick-late', 'FileStorage/FileStorage.py', "        stop = TimeStamp(*time.gmtime(t)[:5] + (t % 60,)).raw()\n        if stop == z64:\n            raise FileStorageError('Invalid pack time')", "        stop = TimeStamp(*time.gmtime(t + 1)[:5] + ((t + 1) % 60,)).raw()\n        if stop == z64:\n            raise FileStorageError('Invalid pack time')"),
+ ('C07', 'mapping-pack-removes-last-le-stop', 'MappingStorage.py', "                tids_to_remove.pop()    # Keep the last, if any\n", "                pass\n"),
+ ('C07', 'mapping-gc-regress', 'MappingStorage.py', "                if tid_data.maxKey() > stop:\n                    to_copy.add(oid)", "                pass"),
+ ('C07', 'referencesf-skips-bare-oid', 'serialize.py', "        elif isinstance(reference, (bytes, str)):\n            oid = reference\n        else:", "        elif isinstance(reference, (str,)):\n            oid = reference\n        else:"),
+ ('C07', 'written-after-fix-regress', FSP, "                    if cur is not None:\n                        self.reachable[dh.oid] = cur\n                        extra_roots.append(cur)", "                    pass"),
+ ('C07', 'copyrest-loses-tindex', FSP, "        self.index.update(self.tindex)\n        self.tindex.clear()\n        self._commit_lock.acquire()", "        self.tindex.clear()\n        self._commit_lock.acquire()"),
+]
